@@ -15,7 +15,7 @@ import (
 func init() {
 	register("C11", &monitor{
 		run: runC11,
-		rule: "(1) parameter-domain edges enumerated: every surrogate, negative, out-of-range and boundary rune for every rune-taking method and all 256 bytes for every byte-taking method of StringBuilder, the SafePrinter (Sprintfn and SafeFormat) and ManualBuffer in every mode, each in 5 buffer states; every reflect.Kind, nil and typed nil for JoinTo; every prefix of 40 hostile formats x 6 operand lists; nil and typed-nil operands through all routes; " +
+		rule: "(1) parameter-domain edges enumerated: every surrogate, negative, out-of-range and boundary rune for every rune-taking method and all 256 bytes for every byte-taking method of StringBuilder, the SafePrinter (Sprintfn and SafeFormat) and ManualBuffer in every mode, each in 5 buffer states; every reflect.Kind, nil and typed nil for JoinTo; every prefix of 40 hostile formats x 9 operand lists; nil and typed-nil operands through all routes; " +
 			"(2) user methods that panic at every position of a script (SafeFormat, SafeMessage, String, Error, Format, GoString; 9 payload modes (incl. a typed nil pointer whose own method dereferences it, alone and inside a slice)), at top level, between literals, inside containers and inside nested Print/Printf; " +
 			"oracle: no panic escapes a public call (except where the payload's own printing panics, as in fmt), output well-formed and line-safe, text written before the failing element identical to the text of the same call cut at that element, PANIC= report in place with the payload inside an envelope, text after it intact; " +
 			"non-trivial = an edge value outside the valid domain or a contained panic was observed; distinct = distinct cases",
@@ -193,7 +193,9 @@ var hostileFormats = []string{
 
 func c11formats(c *Ctx) {
 	x := 7
-	argLists := [][]interface{}{nil, {nil}, {1}, {1, 2, 3}, {"s", []byte(nil), (*int)(nil)}, {-3, 1000001, &x, tErr{"e"}}}
+	argLists := [][]interface{}{nil, {nil}, {1}, {1, 2, 3}, {"s", []byte(nil), (*int)(nil)}, {-3, 1000001, &x, tErr{"e"}},
+		// wrapped nils and wrappers as surplus, star and indexed operands
+		{redact.Safe(nil), redact.Unsafe(nil), redact.Safe(redact.Unsafe(nil))}, {1, redact.Safe(nil), 2, redact.Unsafe(nil), nil}, {redact.Safe(3), redact.Unsafe(4), redact.Safe("w")}}
 	type job struct {
 		f    string
 		args int
@@ -564,6 +566,7 @@ func c11withoutMarkers(c *Ctx) {
 		bc.memo = map[*D]interface{}{}
 		var f redact.SafeFormatter
 		var desc string
+		noPanic := false
 		switch k := r.Intn(10); {
 		case k == 0:
 			f, desc = nil, "nil interface"
@@ -588,7 +591,14 @@ func c11withoutMarkers(c *Ctx) {
 				steps = append(steps[:at:at], append([]*D{{K: "sPanic", S: "boom" + startM, N: int64(mode)}}, steps[at:]...)...)
 				desc = "SafeFormat script panicking at step " + itoa(at) + " (mode " + itoa(mode) + ")"
 			} else {
-				desc = "SafeFormat script"
+				// no step panics: a nested script of the same (uncomparable) type is printed by one of the steps
+				var innerSteps []*D
+				for j, m := 0, 1+r.Intn(3); j < m; j++ {
+					innerSteps = append(innerSteps, randStep(r, 1, o))
+				}
+				steps = append(steps, dSub("sPrint", &D{K: "SafeFmt", Sub: innerSteps}), &D{K: "sPrintf", S: "<%v|%d>", Sub: []*D{{K: "SafeFmt", Sub: innerSteps}, dN("int", 3)}})
+				desc = "SafeFormat script printing scripts of its own type"
+				noPanic = true
 			}
 			f = tSafeFmt{steps, func() *buildCtx { return bc }}
 			desc += ": " + sprint(len(steps)) + " steps"
@@ -619,6 +629,10 @@ func c11withoutMarkers(c *Ctx) {
 			w.Violate("C11 StringWithoutMarkers-text", "StringWithoutMarkers gives "+q(got)+", Sprint(f).StripMarkers() gives "+q(ref)+": "+desc, cs())
 			return
 		}
+		if noPanic && strings.Contains(got, "(PANIC=") {
+			w.Violate("C11 spurious-panic-report", "no user method panics, yet the output reports one: "+q(got)+": "+desc, cs())
+			return
+		}
 		w.Nontrivial(hashStrs("swm", desc, got))
 	})
 }
@@ -632,6 +646,6 @@ func runC11(c *Ctx) {
 	c11panics(c)
 	c11doublePanics(c)
 	c11withoutMarkers(c)
-	c.res.Bound = "rune edges: all 2048 surrogates + 18 boundary values; all 256 bytes; 5 buffer states x 4 implementations; 44 JoinTo operand types x 4 delimiters; every prefix of 40 hostile formats x 6 operand lists x 6 routes; 33 nil-ish and reflection-hostile operands x 58 verbs x 4 flag forms x 6 routes"
+	c.res.Bound = "rune edges: all 2048 surrogates + 18 boundary values; all 256 bytes; 5 buffer states x 4 implementations; 44 JoinTo operand types x 4 delimiters; every prefix of 40 hostile formats x 9 operand lists x 6 routes; 33 nil-ish and reflection-hostile operands x 58 verbs x 4 flag forms x 6 routes"
 	c.res.Assumptions = []string{"outside the claim, per the statement: Grow with a negative count, memory exhaustion; nil destinations/callbacks are programmer errors, not values to print", "a panic raised while printing a panic payload propagates, as in fmt (checked against fmt in C04)"}
 }
